@@ -3,7 +3,7 @@ and calls inside one interpreter state; afterwards the caller-visible state is c
 was (provider mappings, annotation attributes).
 
  A|alias|cls,opt,shape            one shared annotation object (opt = its constructor flag, normally 0)
- V|pid|fresh/long/inst/unhash/bad/badfalsy/badstr/baddict/falsy|scope   a provider object (fresh dict per call / one long-lived dict / `inst`: the method is an attribute of the
+ V|pid|fresh/long/inst/unhash/cls/mapobj/bad/badfalsy/badstr/baddict/instbad/falsy|scope   a provider object (fresh dict per call / one long-lived dict / `inst`: the method is an attribute of the
                                   instance, not of its class — a namespace, a module, a mock / not a provider: an object, a falsy object, a string other than "self" / a falsy provider)
  S|pid|scope                      change what the provider returns
  D|fid|pid,-,self:pid,selfraw|name=alias:opt;name=(alias:opt+alias:opt)|ret|nested   (nested: fid | - | set:pid=k:3,n:4 = the body updates provider pid)
@@ -47,9 +47,12 @@ class InstProv:
     """a provider whose `get_dltype_scope` lives on the instance (types.SimpleNamespace, a module with a module-level function, a mock):
     the protocol is structural, `isinstance(obj, DLTypeScopeProvider)` holds"""
 
-    def __init__(self, d):
+    def __init__(self, d, is_provider=True):
         self.d = dict(d)
-        self.get_dltype_scope = lambda: dict(self.d)
+        self.is_provider = is_provider
+        if is_provider:
+            # (an object of this very type WITHOUT the attribute is not a provider: what one object of a type is says nothing about another)
+            self.get_dltype_scope = lambda: dict(self.d)
 
     def set(self, d):
         self.d = dict(d)
@@ -61,6 +64,70 @@ class NotProv:
 
     def set(self, d):
         self.d = dict(d)
+
+
+def make_class_provider(d):
+    """a provider that is a CLASS object: `get_dltype_scope` is a classmethod reading a class attribute (a configuration class passed as
+    `dltyped(scope_provider=Config)`); the runtime protocol holds for the class object itself"""
+    return type("ConfigClassProv", (), {"d": dict(d), "get_dltype_scope": classmethod(lambda c: dict(c.d)), "set": classmethod(lambda c, d2: setattr(c, "d", dict(d2)))})
+
+
+class _CIMap:
+    """a mapping object that is no dict (keeps its items in an inner dict): what `get_dltype_scope` of a `mapobj` provider hands out, the
+    SAME object on every call"""
+
+    def __init__(self, inner):
+        self.inner = inner
+
+    def __getitem__(self, k):
+        return self.inner[k]
+
+    def __setitem__(self, k, v):
+        self.inner[k] = v
+
+    def __delitem__(self, k):
+        del self.inner[k]
+
+    def __iter__(self):
+        return iter(self.inner)
+
+    def __len__(self):
+        return len(self.inner)
+
+    def __contains__(self, k):
+        return k in self.inner
+
+    def keys(self):
+        return self.inner.keys()
+
+    def items(self):
+        return self.inner.items()
+
+    def values(self):
+        return self.inner.values()
+
+    def get(self, k, default=None):
+        return self.inner.get(k, default)
+
+
+import collections.abc as _abc  # noqa: E402
+
+_abc.MutableMapping.register(_CIMap)
+
+
+class MapObjProv:
+    """a provider that hands out one long-lived custom mapping object (not a dict subclass)"""
+
+    def __init__(self, d):
+        self.d = dict(d)
+        self.m = _CIMap(self.d)
+
+    def get_dltype_scope(self):
+        return self.m
+
+    def set(self, d):
+        self.d.clear()
+        self.d.update(d)
 
 
 class DictNotProv(dict):
@@ -148,6 +215,12 @@ def op_hist(*steps: str) -> str:
                     provs[f[1]] = FalsyProv("fresh", d)
                 elif f[2] == "inst":
                     provs[f[1]] = InstProv(d)
+                elif f[2] == "cls":
+                    provs[f[1]] = make_class_provider(d)
+                elif f[2] == "mapobj":
+                    provs[f[1]] = MapObjProv(d)
+                elif f[2] == "instbad":
+                    provs[f[1]] = InstProv(d, is_provider=False)
                 elif f[2] == "unhash":
                     # a provider that cannot be hashed (an ordinary non-frozen dataclass config, any class with __eq__ and no __hash__)
                     provs[f[1]] = type("UnhashableProv", (Prov,), {"__eq__": lambda self, o: self is o, "__hash__": None})("fresh", d)
@@ -179,10 +252,10 @@ def op_hist(*steps: str) -> str:
                 body += "    if RAISE[0]:\n        raise BodyError()\n    return RET[0]\n"
                 if pid.startswith("self:"):
                     src = f"class K_{fid}:\n    def __init__(self, prov):\n        self.prov = prov\n"
-                    if isinstance(provs.get(pid[5:]), InstProv):
+                    if isinstance(provs.get(pid[5:]), InstProv) and provs[pid[5:]].is_provider:
                         # the method is assigned in __init__: an attribute of the instance, absent from the class
                         src += "        self.get_dltype_scope = lambda: self.prov.get_dltype_scope()\n"
-                    elif not (isinstance(provs.get(pid[5:]), (NotProv, StrProv)) or isinstance(provs.get(pid[5:]), DictNotProv)):
+                    elif not isinstance(provs.get(pid[5:]), (NotProv, StrProv, DictNotProv, InstProv)):
                         src += "    def get_dltype_scope(self):\n        return self.prov.get_dltype_scope()\n"
                     # ("self" built at run time: equal to the literal, not the interned object)
                     src += f"    @dltype.dltyped(''.join(('se', 'lf')))\n    def f(self{', ' if sig else ''}{sig}){rets}:\n"
